@@ -7,7 +7,8 @@ From Coq Require Import List ZArith NArith QArith Qcanon Bool Lia Lqa.
 Import ListNotations.
 Require Import UPV.Core.Expr UPV.Core.Eval UPV.Core.Interp UPV.Planning.Problem UPV.Planning.Sem.
 Require Import UPV.Planning.Temporal UPV.Planning.TTValidate UPV.Walkers.Subst UPV.Compilers.T2SCompile.
-Require Import UPV.Proofs.Eval_lemmas UPV.Proofs.Temporal_base.
+Require Import UPV.Proofs.Eval_lemmas UPV.Proofs.Step_proofs UPV.Proofs.Temporal_base UPV.Proofs.Temporal_dense.
+Require Import UPV.Proofs.Temporal_joint UPV.Proofs.Temporal_proofs.
 Local Open Scope Qc_scope.
 
 Definition seq_of_t (tpl : tplan) : list (N * list value) := map (fun st => (ps_act st, ps_args st)) tpl.
@@ -197,3 +198,195 @@ Proof.
   destruct (ps_dur st) as [dt|] eqn:E; [|apply Qcle_refl].
   apply Qclt_le_weak. exact (Pos st dt Hin E).
 Qed.
+
+(* ================================================================================================================ *)
+(* Whole-plan validity for the sub-fragment [no_start_fragment]                                                      *)
+(* ================================================================================================================ *)
+
+(* ---------------------------------------------------------------- reflection of the boolean checks *)
+Lemma is_true_eq e : is_true e = true -> e = EBool true.
+Proof. destruct e; cbn; try discriminate. destruct b; [reflexivity | discriminate]. Qed.
+
+Lemma kind_eqb_eq a b : kind_eqb a b = true -> a = b.
+Proof. destruct a, b; cbn; try discriminate; reflexivity. Qed.
+
+Lemma effect_eqb_eq a b : effect_eqb a b = true -> a = b.
+Proof.
+  destruct a as [f1 a1 v1 c1 k1 x1 b1], b as [f2 a2 v2 c2 k2 x2 b2]. unfold effect_eqb. simpl.
+  rewrite !andb_true_iff. intros [[[[[[H1 H2] H3] H4] H5] H6] H7].
+  apply N.eqb_eq in H1. apply expr_eqb_eq in H3. apply expr_eqb_eq in H4. apply kind_eqb_eq in H5.
+  apply vars_eqb_eq in H6. apply Bool.eqb_prop in H7.
+  apply (list_expr_eqb_eq a1) in H2; [|apply Forall_forall; intros x _; apply expr_eqb_eq].
+  subst. reflexivity.
+Qed.
+
+Lemma effects_eqb_eq a : forall b, effects_eqb a b = true -> a = b.
+Proof.
+  induction a as [|x a IH]; intros [|y b]; cbn; try discriminate; [reflexivity|].
+  rewrite andb_true_iff. intros [H1 H2]. apply effect_eqb_eq in H1. apply IH in H2. subst. reflexivity.
+Qed.
+
+Lemma holds_true sc I : holds sc I (EBool true) = true.
+Proof. reflexivity. Qed.
+
+Lemma covered_holds sc I pre c : all_hold sc I pre = true -> covered pre c = true -> holds sc I c = true.
+Proof.
+  intros A C. unfold covered in C. apply orb_true_iff in C. destruct C as [C|C].
+  - apply is_true_eq in C. subst. apply holds_true.
+  - unfold mem_expr in C. apply existsb_exists in C. destruct C as [x [Hin E]]. apply expr_eqb_eq in E. subst x.
+    unfold all_hold in A. rewrite forallb_forall in A. apply A. exact Hin.
+Qed.
+
+(* ---------------------------------------------------------------- plain effects fire like the originals *)
+Section Plain.
+  Variable sc : bool.
+  Variable smp : expr -> expr.
+  Hypothesis OK : forall e I, eval sc (smp e) I = eval sc e I.
+
+  Lemma holds_smp I c : holds sc I (smp c) = holds sc I c.
+  Proof. unfold holds. rewrite OK. reflexivity. Qed.
+
+  Lemma eval_effect_plain J e :
+    plain_assign e = true -> eval_effect sc J (mk_assign e (smp (e_val e))) = eval_effect sc J e.
+  Proof.
+    unfold plain_assign, eff_plain. rewrite !andb_true_iff. intros [[C _] K].
+    apply is_true_eq in C. unfold eval_effect, mk_assign. cbn [e_args e_cond e_val e_fl e_kind].
+    rewrite C, OK. destruct (e_kind e); try discriminate. reflexivity.
+  Qed.
+
+  Lemma fired_plain I l :
+    forallb plain_assign l = true -> fired sc I (map (fun e => mk_assign e (smp (e_val e))) l) = fired sc I l.
+  Proof.
+    intros H. unfold fired. f_equal. induction l as [|e l IH]; [reflexivity|].
+    cbn [forallb] in H. apply andb_true_iff in H. destruct H as [He Hl].
+    cbn [map flat_map]. rewrite (IH Hl). f_equal.
+    assert (V : e_vars e = []).
+    { unfold plain_assign, eff_plain in He. rewrite !andb_true_iff in He. destruct He as [[_ V] _].
+      destruct (e_vars e); [reflexivity | discriminate]. }
+    change (e_vars (mk_assign e (smp (e_val e)))) with (@nil (N * N)). rewrite V. cbn [instances map].
+    f_equal. apply eval_effect_plain. exact He.
+  Qed.
+End Plain.
+
+(* ---------------------------------------------------------------- one event of one source = the sequential step *)
+Lemma one_source_tag (x : src) acts k : one_source (assigners k (map (fun a => (x, a)) acts)) = true.
+Proof.
+  apply one_source_spec. intros a b Ha Hb. unfold assigners in *.
+  apply in_map_iff in Ha. destruct Ha as [[a1 a2] [Ea Fa]]. apply filter_In in Fa. destruct Fa as [Fa _].
+  apply in_map_iff in Fa. destruct Fa as [w [Ew _]]. inversion Ew; subst.
+  apply in_map_iff in Hb. destruct Hb as [[b1 b2] [Eb Fb]]. apply filter_In in Fb. destruct Fb as [Fb _].
+  apply in_map_iff in Fb. destruct Fb as [w' [Ew' _]]. inversion Ew'; subst. reflexivity.
+Qed.
+
+Lemma joint_fluent_tag P s (x : src) acts k :
+  joint_fluent P s (map (fun a => (x, a)) acts) k = spec_fluent P s acts k.
+Proof.
+  unfold joint_fluent. rewrite one_source_tag.
+  replace (map snd (map (fun a => (x, a)) acts)) with acts; [reflexivity|].
+  rewrite map_map. symmetry. apply map_id.
+Qed.
+
+Lemma ref_apply_single sc P s (x : src) bind effs acts t :
+  fired sc (mk_interp P s bind) effs = Some acts -> spec_effects_ok P s acts = true ->
+  exists s1, ref_apply sc P s [ {| ev_time := t; ev_src := x; ev_bind := bind; ev_effs := effs |} ] = Some s1 /\
+             state_eq s1 (spec_succ P s acts).
+Proof.
+  intros F E. unfold ref_apply. cbn [fire_events ev_bind ev_effs ev_src]. rewrite F, app_nil_r.
+  assert (J : joint_ok P s (map (fun a => (x, a)) acts) = true).
+  { unfold joint_ok. apply forallb_forall. intros y Hy. apply in_map_iff in Hy. destruct Hy as [a [<- Ha]].
+    cbn [snd]. rewrite joint_fluent_tag. unfold spec_effects_ok in E. rewrite forallb_forall in E. exact (E a Ha). }
+  rewrite J. eexists. split; [reflexivity|]. intros f a. unfold joint_succ, spec_succ. rewrite joint_fluent_tag. reflexivity.
+Qed.
+
+Lemma spec_step_inv sc P s a args s' :
+  spec_step sc P s a args = Some s' ->
+  all_hold sc (mk_interp P s (zip_params (a_params a) args)) (a_pre a) = true /\
+  exists acts, fired sc (mk_interp P s (zip_params (a_params a) args)) (a_effs a) = Some acts /\
+               spec_effects_ok P s acts = true /\ s' = spec_succ P s acts.
+Proof.
+  unfold spec_step. destruct (all_hold sc _ (a_pre a)) eqn:A; cbn [negb]; [|discriminate].
+  destruct (fired sc _ (a_effs a)) as [acts|] eqn:F; [|discriminate].
+  destruct (spec_effects_ok P s acts) eqn:E; cbn [negb]; [|discriminate].
+  destruct (invariants_ok sc P (spec_succ P s acts)); [|discriminate].
+  intros H. inversion H. split; [reflexivity|]. exists acts. split; [reflexivity|]. split; [exact E | reflexivity].
+Qed.
+
+(* P' differs from P at most in its actions (the compiled problem) *)
+Definition same_base (P P' : problem) : Prop :=
+  p_fluents P' = p_fluents P /\ p_ifun P' = p_ifun P /\ p_objs P' = p_objs P /\ p_goals P' = p_goals P.
+
+Lemma mk_interp_base P P' s t b : same_base P P' -> state_eq s t -> interp_eq (mk_interp P' s b) (mk_interp P t b).
+Proof.
+  intros (_ & Hi & Ho & _) H. repeat split; cbn; auto.
+  - intros f a. rewrite Hi. reflexivity.
+  - intros ty. unfold objs_of. rewrite Ho. reflexivity.
+Qed.
+
+Lemma spec_fluent_base P P' s t acts k : same_base P P' -> state_eq s t -> spec_fluent P' s acts k = spec_fluent P t acts k.
+Proof.
+  intros (Hf & _) H. unfold spec_fluent, is_bool_fluent. rewrite Hf, (H (fst k) (snd k)). reflexivity.
+Qed.
+
+(* ---------------------------------------------------------------- the single-step simulation, no start effects *)
+Section StepNoStart.
+  Variable sc : bool.
+  Variable smp : expr -> expr.
+  Hypothesis OK : forall e I, eval sc (smp e) I = eval sc e I.
+  Variable P P' : problem.
+  Hypothesis SB : same_base P P'.
+
+  (* every condition the compiler keeps holds wherever the compiled preconditions hold *)
+  Lemma conds_hold d pre I :
+    all_hold sc I pre = true -> conds_covered smp d pre = true ->
+    forall ic c, In ic (d_conds d) -> In c (snd ic) ->
+      (is_start0 (ti_lo (fst ic)) && negb (ti_lopen (fst ic)) = true -> holds sc I c = true) /\
+      (is_end0 (ti_hi (fst ic)) = true -> holds sc I c = true).
+  Proof.
+    intros A C ic c Hic Hc. unfold conds_covered in C. rewrite forallb_forall in C. specialize (C ic Hic).
+    cbn zeta in C. apply andb_true_iff in C. destruct C as [C1 C2]. split; intros E.
+    - rewrite E in C1. rewrite forallb_forall in C1. exact (covered_holds sc I pre c A (C1 c Hc)).
+    - rewrite E in C2. rewrite forallb_forall in C2. rewrite <- (holds_smp sc smp OK).
+      exact (covered_holds sc I pre (smp c) A (C2 c Hc)).
+  Qed.
+
+  (* the compiled step applied in s_s  =  the end event of the durative action applied alone in s_t (s_t = s_s
+     extensionally); the compiled preconditions hold in s_t *)
+  Lemma dur_step d a' l args (s_s s_t s_s' : state) (x : src) t :
+    forallb plain_assign l = true ->
+    a_effs a' = map (fun e => mk_assign e (smp (e_val e))) l -> a_params a' = d_params d ->
+    state_eq s_t s_s -> spec_step sc P' s_s a' args = Some s_s' ->
+    all_hold sc (mk_interp P s_t (zip_params (d_params d) args)) (a_pre a') = true /\
+    exists s_t', ref_apply sc P s_t [ {| ev_time := t; ev_src := x; ev_bind := zip_params (d_params d) args;
+                                         ev_effs := l |} ] = Some s_t' /\ state_eq s_t' s_s'.
+  Proof.
+    intros PL EF EP SE SP. apply spec_step_inv in SP. rewrite EP, EF in SP. destruct SP as [A [acts [F [E ->]]]].
+    assert (SE' : state_eq s_s s_t) by (intros f a; symmetry; apply SE).
+    pose proof (mk_interp_base P P' s_s s_t (zip_params (d_params d) args) SB SE') as IE.
+    split; [rewrite <- (all_hold_ext sc _ _ (a_pre a') IE); exact A|].
+    rewrite (fired_ext sc _ _ _ IE) in F. rewrite (fired_plain sc smp OK _ l PL) in F.
+    assert (E' : spec_effects_ok P s_t acts = true).
+    { unfold spec_effects_ok in *. rewrite forallb_forall in *. intros a Ha.
+      rewrite <- (spec_fluent_base P P' s_s s_t acts (ae_key a) SB SE'). exact (E a Ha). }
+    destruct (ref_apply_single sc P s_t x _ l acts t F E') as [s1 [R1 R2]]. exists s1. split; [exact R1|].
+    intros f a. rewrite (R2 f a). unfold spec_succ.
+    rewrite (spec_fluent_base P P' s_s s_t acts (f, a) SB SE'). rewrite (SE f a). reflexivity.
+  Qed.
+
+  Lemma step_no_start_effects d a' args (s_s s_t s_s' : state) (x : src) t :
+    plain_step smp d a' = true -> a_params a' = d_params d ->
+    state_eq s_t s_s -> spec_step sc P' s_s a' args = Some s_s' ->
+    exists l, only_end_effs d = Some l /\
+      (forall ic c, In ic (d_conds d) -> In c (snd ic) ->
+         (is_start0 (ti_lo (fst ic)) && negb (ti_lopen (fst ic)) = true \/ is_end0 (ti_hi (fst ic)) = true) ->
+         holds sc (mk_interp P s_t (zip_params (d_params d) args)) c = true) /\
+      exists s_t', ref_apply sc P s_t [ {| ev_time := t; ev_src := x; ev_bind := zip_params (d_params d) args;
+                                           ev_effs := l |} ] = Some s_t' /\ state_eq s_t' s_s'.
+  Proof.
+    unfold plain_step. destruct (only_end_effs d) as [l|]; [|discriminate].
+    rewrite !andb_true_iff. intros [[PL EF] CC] EP SE SP. apply effects_eqb_eq in EF.
+    destruct (dur_step d a' l args s_s s_t s_s' x t PL EF EP SE SP) as [A R].
+    exists l. split; [reflexivity|]. split; [|exact R].
+    intros ic c Hic Hc K. destruct (conds_hold d (a_pre a') _ A CC ic c Hic Hc) as [K1 K2].
+    destruct K as [K|K]; [exact (K1 K) | exact (K2 K)].
+  Qed.
+End StepNoStart.
